@@ -28,7 +28,7 @@ var skipInit = map[string]bool{
 	"os/exec": true, "net": true, "internal/testlog": true, "testing": true, "log": true,
 	"math/rand": true, "math/rand/v2": true, "crypto/rand": true, "os/signal": true,
 	"internal/runtime/maps": true, "fmt": true, "os/user": true, "runtime/debug": true,
-	"internal/reflectlite": true, "internal/oserror": true, "context": true,
+	"internal/reflectlite": true, "internal/oserror": true, "context": true, "net/netip": true, "unique": true,
 	vpPath: true,
 }
 
@@ -430,6 +430,10 @@ func init() {
 	reg("os.LookupEnv", func(fr *frame, args []value) value {
 		v, ok := os.LookupEnv(concStr(fr, args[0], "os.LookupEnv"))
 		return tuple{v, ok}
+	})
+	reg("os.ReadFile", func(fr *frame, args []value) value {
+		// file-system model: no file exists unless a harness installed it (none does yet)
+		return tuple{[]value(nil), fr.newError("open " + concStr(fr, args[0], "os.ReadFile") + ": no such file or directory")}
 	})
 	reg("os.Hostname", func(fr *frame, args []value) value { return tuple{"localhost", iface{}} })
 	reg("os.Getpid", func(fr *frame, args []value) value { return 4242 })
